@@ -1,4 +1,4 @@
-import XmlRsModel.Lemmas.RunsDecl
+import XmlRsModel.Lemmas.RunsDoctype
 /-! Completeness of `document` for documents without DOCTYPE: optional XML declaration, prolog and epilogue of Misc
     items around the root element. -/
 namespace XmlRs.Lex
@@ -13,54 +13,41 @@ def cstDeclOpt : Option CDecl → CST
   | none => .seq []
   | some x => cstDecl x
 
+def cstDoctypePart : Option (CDoctype × List CMisc) → CST
+  | none => .seq []
+  | some (dt, ms) => .seq [cstDoctype dt, .many (ms.map cstMisc)]
+
 def cstDoc (d : CDoc) : CST :=
-  .node N.document (.seq [.node N.prolog (.seq [cstDeclOpt d.decl, .many (d.before.map cstMisc), .seq []]),
+  .node N.document (.seq [.node N.prolog (.seq [cstDeclOpt d.decl, .many (d.before.map cstMisc), cstDoctypePart d.doctype]),
                           cstItemNode d.root, .many (d.after.map cstMisc)])
 
 /-- what ends a run of Misc items: the end of the input, or a tag that is neither a comment nor a PI -/
-def MiscEnd (X : Str) : Prop := X = [] ∨ ∃ c r, X = '<' :: c :: r ∧ c ≠ '!' ∧ c ≠ '?'
+def MiscEnd (X : Str) : Prop := X = [] ∨ (∃ c r, X = '<' :: c :: r ∧ c ≠ '!' ∧ c ≠ '?') ∨ ∃ r, X = kwDOCTYPE ++ r
 
 theorem MiscEnd.stops_space {X : Str} (h : MiscEnd X) : Stops P.isSpace X := by
-  rcases h with rfl | ⟨c, r, rfl, _, _⟩
+  rcases h with rfl | ⟨c, r, rfl, _, _⟩ | ⟨r, rfl⟩
   · exact Stops.nil
   · exact Stops.cons _ (by decide)
-
-theorem comment_fails_nil : Runs env (.nt N.comment) [] .fail := by
-  apply Runs.nt_fail_of env_comment
-  unfold Prod.comment
-  exact Runs.seq_fail (RunsSeq.fail_head (Runs.tag_fail rfl))
-
-theorem pi_fails_nil : Runs env (.nt N.pi) [] .fail := by
-  apply Runs.nt_fail_of env_pi
-  unfold Prod.pi
-  exact Runs.seq_fail (RunsSeq.fail_head (Runs.tag_fail rfl))
-
-theorem comment_fails_nonlt {c : Char} (r : Str) (hc : c ≠ '<') : Runs env (.nt N.comment) (c :: r) .fail := by
-  have e0 : [Char.ofNat 60, Char.ofNat 33, Char.ofNat 45, Char.ofNat 45] = ['<', '!', '-', '-'] := rfl
-  apply Runs.nt_fail_of env_comment
-  unfold Prod.comment
-  rw [e0]
-  exact Runs.seq_fail (RunsSeq.fail_head (Runs.tag_fail (strip_cons_ne _ _ (Ne.symm hc))))
-
-theorem pi_fails_nonlt {c : Char} (r : Str) (hc : c ≠ '<') : Runs env (.nt N.pi) (c :: r) .fail := by
-  have e0 : [Char.ofNat 60, Char.ofNat 63] = ['<', '?'] := rfl
-  apply Runs.nt_fail_of env_pi
-  unfold Prod.pi
-  rw [e0]
-  exact Runs.seq_fail (RunsSeq.fail_head (Runs.tag_fail (strip_cons_ne _ _ (Ne.symm hc))))
+  · exact Stops.cons _ (by decide)
 
 theorem misc_fails_at_end {X : Str} (h : MiscEnd X) : Runs env (.nt N.misc) X .fail := by
   apply Runs.nt_fail_of env_misc
   unfold Prod.misc
-  rcases h with rfl | ⟨c, r, rfl, h1, h2⟩
+  rcases h with rfl | ⟨c, r, rfl, h1, h2⟩ | ⟨r, rfl⟩
   · exact Runs.alt (RunsAlt.skip comment_fails_nil (RunsAlt.skip pi_fails_nil (RunsAlt.skip (runs_cls1_fail Stops.nil) (RunsAlt.nil _))))
   · exact Runs.alt (RunsAlt.skip (comment_fails_on c r h1) (RunsAlt.skip (pi_fails_on c r h2)
+      (RunsAlt.skip (runs_cls1_fail (Stops.cons _ (by decide))) (RunsAlt.nil _))))
+  · have hc : Runs env (.nt N.comment) (kwDOCTYPE ++ r) .fail := by
+      have e0 : [Char.ofNat 60, Char.ofNat 33, Char.ofNat 45, Char.ofNat 45] = ['<', '!', '-', '-'] := rfl
+      apply Runs.nt_fail_of env_comment
+      unfold Prod.comment
+      rw [e0]
+      exact Runs.seq_fail (RunsSeq.fail_head (Runs.tag_fail (by simp [kwDOCTYPE, stripPrefix])))
+    exact Runs.alt (RunsAlt.skip hc (RunsAlt.skip (pi_fails_on '!' _ (by decide))
       (RunsAlt.skip (runs_cls1_fail (Stops.cons _ (by decide))) (RunsAlt.nil _))))
 
 theorem okMiscWs_parts {w : Str} (h : okMisc (.ws w) = true) : w ≠ [] ∧ okWs w = true := by
   simpa [okMisc] using h
-
-theorem sp_lt : P.isSpace '<' = false := by decide
 
 theorem runs_misc (m : CMisc) (hok : okMisc m = true) (Y : Str) (hY : isWsMisc m = true → Stops P.isSpace Y) :
     Runs env (.nt N.misc) (m.str ++ Y) (.ok (cstMisc m) Y) := by
@@ -137,7 +124,7 @@ theorem nc_bang : P.isNameChar '!' = false := by decide
 
 theorem miscEnd_of_elem {i : CItem} (hi : isElemItem i = true) (hok : okItem i = true) (Y : Str) : MiscEnd (i.str ++ Y) := by
   obtain ⟨c, r, e, hc⟩ := elem_str_head hi hok Y
-  refine .inr ⟨c, r, e, ?_, ?_⟩
+  refine .inr (.inl ⟨c, r, e, ?_, ?_⟩)
   · intro h; subst h; simp [nc_bang] at hc
   · intro h; subst h; simp [nc_q] at hc
 
@@ -145,21 +132,19 @@ abbrev xmlL : Str := ['x', 'm', 'l']
 
 /-- the XML declaration production fails on a document that starts with something else; a PI whose target merely
     begins with `xml` is read as far as `<?xml` and then misses the white space in front of `version` -/
-theorem xml_decl_fails (d : CDoc) (hb : d.before.all okMisc = true) (hroot : isElemItem d.root = true) (hok : okItem d.root = true) :
-    Runs env (.nt N.xml_decl) (miscText d.before ++ (d.root.str ++ miscText d.after)) .fail := by
+theorem xml_decl_fails (before : List CMisc) (hb : before.all okMisc = true) (Z : Str) (hZ : ∃ c r, Z = '<' :: c :: r ∧ c ≠ '?') :
+    Runs env (.nt N.xml_decl) (miscText before ++ Z) .fail := by
   have e0 : [Char.ofNat 60,Char.ofNat 63,Char.ofNat 120,Char.ofNat 109,Char.ofNat 108] = '<' :: '?' :: xmlL := rfl
   apply Runs.nt_fail_of env_xml_decl
   unfold Prod.xml_decl
   rw [e0]
-  cases hbef : d.before with
+  cases before with
   | nil =>
-    obtain ⟨c, r, e, hc⟩ := elem_str_head hroot hok (miscText d.after)
+    obtain ⟨c, r, e, hc⟩ := hZ
     simp only [miscText, List.nil_append, e]
     refine Runs.seq_fail (RunsSeq.fail_head (Runs.tag_fail ?_))
-    have : c ≠ '?' := by intro h; subst h; simp [nc_q] at hc
-    simp [stripPrefix, Ne.symm this]
+    simp [stripPrefix, Ne.symm hc]
   | cons m rest =>
-    rw [hbef] at hb
     simp only [List.all_cons, Bool.and_eq_true] at hb
     simp only [miscText, List.append_assoc]
     cases m with
@@ -176,7 +161,7 @@ theorem xml_decl_fails (d : CDoc) (hb : d.before.all okMisc = true) (hroot : isE
         exact Runs.seq_fail (RunsSeq.fail_head (Runs.tag_fail (by simp [CMisc.str, stripPrefix, Ne.symm hd])))
     | pi t b =>
       obtain ⟨h1, h2, h3, _, _⟩ := okPI_parts (by simpa [okMisc] using hb.1)
-      generalize hY : miscText rest ++ (d.root.str ++ miscText d.after) = Y
+      generalize hY : miscText rest ++ Z = Y
       have hX : Stops P.isNameChar (b ++ (['?', '>'] ++ Y)) := by
         rcases h3 with rfl | ⟨c, b', rfl, hc⟩
         · exact Stops.cons _ nc_q
@@ -219,7 +204,7 @@ theorem xml_decl_fails (d : CDoc) (hb : d.before.all okMisc = true) (hroot : isE
           refine Runs.seq_fail (RunsSeq.fail_head (Runs.seq_fail (RunsSeq.fail_head ?_)))
           exact runs_cls1_fail (Stops.cons _ (space_not_nameChar c hcN))
 
-theorem doctype_fails {X : Str} (h : MiscEnd X) : Runs env (.nt N.doctype_decl) X .fail := by
+theorem doctype_fails {X : Str} (h : X = [] ∨ ∃ c r, X = '<' :: c :: r ∧ c ≠ '!' ∧ c ≠ '?') : Runs env (.nt N.doctype_decl) X .fail := by
   have e0 : [Char.ofNat 60,Char.ofNat 33,Char.ofNat 68,Char.ofNat 79,Char.ofNat 67,Char.ofNat 84,Char.ofNat 89,Char.ofNat 80,Char.ofNat 69] =
       '<' :: '!' :: ['D', 'O', 'C', 'T', 'Y', 'P', 'E'] := rfl
   apply Runs.nt_fail_of env_doctype_decl
@@ -234,32 +219,71 @@ theorem CDoc.ok_parts {d : CDoc} (h : d.ok = true) :
     (∀ x, d.decl = some x → okDecl x = true) ∧ d.before.all okMisc = true ∧ adjWs d.before = false ∧ isElemItem d.root = true ∧ okItem d.root = true ∧
     d.after.all okMisc = true ∧ adjWs d.after = false := by
   simp only [CDoc.ok, Bool.and_eq_true, Bool.not_eq_true'] at h
-  obtain ⟨⟨⟨⟨⟨⟨h1, h2⟩, h3⟩, h4⟩, h5⟩, h6⟩, h7⟩ := h
+  obtain ⟨⟨⟨⟨⟨⟨⟨h1, h2⟩, h3⟩, h4⟩, h5⟩, h6⟩, h7⟩, _⟩ := h
   exact ⟨fun x hx => by rw [hx] at h1; exact h1, h2, h3, h4, h5, h6, h7⟩
 
-/-- COMPLETENESS of the generated grammar on renderings: the text of a concrete document (optional XML declaration, no DOCTYPE)
-    is parsed completely, to the tree `cstDoc d` -/
+theorem CDoc.ok_doctype {d : CDoc} (h : d.ok = true) :
+    ∀ dt ms, d.doctype = some (dt, ms) → okDoctype dt = true ∧ ms.all okMisc = true ∧ adjWs ms = false := by
+  simp only [CDoc.ok, Bool.and_eq_true, Bool.not_eq_true'] at h
+  intro dt ms he
+  have h8 := h.2
+  rw [he] at h8
+  simp only [Bool.and_eq_true, Bool.not_eq_true'] at h8
+  exact ⟨h8.1.1, h8.1.2, h8.2⟩
+
+theorem doctype_str_head (dt : CDoctype) (Y : Str) : ∃ r, dt.str ++ Y = kwDOCTYPE ++ r :=
+  ⟨dt.ws0 ++ (dt.name.text ++ (extText dt.ext ++ (dt.ws1 ++ (subsetText dt.subset ++ '>' :: Y)))), by simp [CDoctype.str]⟩
+
+/-- COMPLETENESS of the generated grammar on renderings: the text of a concrete document is parsed completely, to the
+    tree `cstDoc d` -/
 theorem runs_document (d : CDoc) (h : d.ok = true) : Runs env (.nt N.document) d.str (.ok (cstDoc d) []) := by
   obtain ⟨h1, h2, h3, h4, h5, h6, h7⟩ := CDoc.ok_parts h
+  have hdt := CDoc.ok_doctype h
   have hend := miscEnd_of_elem h4 h5 (miscText d.after)
+  obtain ⟨rc, rr, erc, hrc⟩ := elem_str_head h4 h5 (miscText d.after)
   apply Runs.nt_of env_document
   unfold Prod.document
+  -- the text behind the leading Misc items starts with `<` and not with `<?`
+  have hZ : ∃ c r, doctypeText d.doctype ++ (d.root.str ++ miscText d.after) = '<' :: c :: r ∧ c ≠ '?' := by
+    cases hd : d.doctype with
+    | none => exact ⟨rc, rr, by simpa [doctypeText] using erc, by intro e; subst e; simp [nc_q] at hrc⟩
+    | some v =>
+      obtain ⟨dt, ms⟩ := v
+      obtain ⟨r, er⟩ := doctype_str_head dt (miscText ms ++ (d.root.str ++ miscText d.after))
+      exact ⟨'!', ['D', 'O', 'C', 'T', 'Y', 'P', 'E'] ++ r, by simp only [doctypeText, List.append_assoc]; rw [er]; rfl, by decide⟩
   have hdecl : Runs env (.alt [.nt N.xml_decl, .seq []]) d.str
-      (.ok (cstDeclOpt d.decl) (miscText d.before ++ (d.root.str ++ miscText d.after))) := by
+      (.ok (cstDeclOpt d.decl) (miscText d.before ++ (doctypeText d.doctype ++ (d.root.str ++ miscText d.after)))) := by
     cases hd : d.decl with
     | none =>
       simp only [CDoc.str, hd, declText, List.nil_append, cstDeclOpt]
-      exact Runs.opt_none (xml_decl_fails d h2 h4 h5)
+      exact Runs.opt_none (xml_decl_fails d.before h2 _ hZ)
     | some x =>
       simp only [CDoc.str, hd, declText, cstDeclOpt]
       exact Runs.opt_some (runs_xml_decl (h1 x hd) _)
+  have hendZ : MiscEnd (doctypeText d.doctype ++ (d.root.str ++ miscText d.after)) := by
+    cases hd : d.doctype with
+    | none => simpa [doctypeText] using hend
+    | some v =>
+      obtain ⟨dt, ms⟩ := v
+      obtain ⟨r, er⟩ := doctype_str_head dt (miscText ms ++ (d.root.str ++ miscText d.after))
+      exact .inr (.inr ⟨r, by simpa [doctypeText] using er⟩)
+  have hdoctype : Runs env (.alt [.seq [.nt N.doctype_decl, .many0 (.nt N.misc)], .seq []])
+      (doctypeText d.doctype ++ (d.root.str ++ miscText d.after)) (.ok (cstDoctypePart d.doctype) (d.root.str ++ miscText d.after)) := by
+    cases hd : d.doctype with
+    | none =>
+      simp only [doctypeText, List.nil_append, cstDoctypePart]
+      refine Runs.opt_none (Runs.seq_fail (RunsSeq.fail_head (doctype_fails ?_)))
+      exact .inr ⟨rc, rr, erc, by intro e; subst e; simp [nc_bang] at hrc, by intro e; subst e; simp [nc_q] at hrc⟩
+    | some v =>
+      obtain ⟨dt, ms⟩ := v
+      obtain ⟨b1, b2, b3⟩ := hdt dt ms hd
+      simp only [doctypeText, List.append_assoc, cstDoctypePart]
+      exact Runs.opt_some (Runs.seq (RunsSeq.cons (runs_doctype b1 _) (RunsSeq.cons (Runs.many (runs_misc_loop ms b2 b3 _ hend)) (RunsSeq.nil _))))
   have hprolog : Runs env (.nt N.prolog) d.str
-      (.ok (.node N.prolog (.seq [cstDeclOpt d.decl, .many (d.before.map cstMisc), .seq []])) (d.root.str ++ miscText d.after)) := by
+      (.ok (.node N.prolog (.seq [cstDeclOpt d.decl, .many (d.before.map cstMisc), cstDoctypePart d.doctype])) (d.root.str ++ miscText d.after)) := by
     apply Runs.nt_of env_prolog
     unfold Prod.prolog
-    refine Runs.seq (RunsSeq.cons hdecl (RunsSeq.cons
-      (Runs.many (runs_misc_loop d.before h2 h3 _ hend)) (RunsSeq.cons ?_ (RunsSeq.nil _))))
-    exact Runs.opt_none (Runs.seq_fail (RunsSeq.fail_head (doctype_fails hend)))
+    exact Runs.seq (RunsSeq.cons hdecl (RunsSeq.cons (Runs.many (runs_misc_loop d.before h2 h3 _ hendZ)) (RunsSeq.cons hdoctype (RunsSeq.nil _))))
   have hroot : Runs env (.nt N.element) (d.root.str ++ miscText d.after) (.ok (cstItemNode d.root) (miscText d.after)) := by
     cases hr : d.root with
     | elem n as w e ks w' => rw [hr] at h5; exact runs_element n as w e ks w' h5 _
